@@ -28,7 +28,9 @@ def _should_set_millisecond(cr, marking_type):
             return False
     if getattr(cr, 'precision', None) in ('millisecond', Precision.MILLISECOND):
         return True
-    return False
+    # a datetime with a sub-second part is written with a fraction, and text
+    # with a fraction is read back at millisecond precision
+    return bool(getattr(cr, 'microsecond', 0))
 
 
 class ExternalReference(_STIXBase20):
